@@ -79,6 +79,14 @@ def job_case(job):
     if kind == "regularised":
         # a regularisation constant must not touch the intercept: the swing factor stays the weighted median
         kw["model_parameters"] = {"lambda_": rng.choice([0.5, 1.0, 10.0])}
+    if kind == "pointer":
+        # the configuration points an estimand at another baseline column (baseline_pointer: dem -> dem_alt, e.g. the presidential result of the
+        # same year): previous result, weights, residuals and the scaled baseline all come from that column
+        case = gen.gen_case(rng, pi_method=pi, features=[], fixed_effects={}, outlier=False, estimands=["dem", "turnout"], **kw)
+        for b in case["baseline"]:
+            b["baseline_dem_alt"] = int(b["baseline_dem"] * rng.uniform(0.5, 1.6)) + rng.randint(0, 40)
+        case["baseline_pointer"] = {"dem": "dem_alt", "gop": "gop", "turnout": "turnout"}
+        return case
     return gen.gen_case(rng, pi_method=pi, features=[], fixed_effects={}, outlier=False, **kw)
 
 
@@ -110,6 +118,9 @@ def worker(job):
     # any run with a regularisation constant goes through the iterative conic solver (also when the generator happened to draw one)
     regularised = job[1] == "regularised" or bool(p.get("model_parameters", {}).get("lambda_"))
     A = len(p["prediction_intervals"])
+    BASECOL = dict(globals()["BASECOL"])
+    for e_, ptr_ in (case.get("baseline_pointer") or {}).items():
+        BASECOL[e_] = f"baseline_{ptr_}"
     base = {b["geographic_unit_fips"]: b for b in case["baseline"]}
     feed = {}
     for f in case["feed"]:
@@ -169,7 +180,7 @@ def run(chk):
                         "through the captured coefficient (1e-9)"]
     rng = random.Random(chk.seed * 503 + 5)
     n = 24 if chk.tier == "quick" else 400
-    kinds = {5: "nonunique", 2: "regularised", 3: "scales", 4: "second_poll"}
+    kinds = {5: "nonunique", 2: "regularised", 3: "scales", 4: "second_poll", 1: "pointer"}
     jobs = [(rng.randint(0, 2**31), kinds.get(i % 6, "random")) for i in range(n)]
     outs = core.pmap(worker, jobs)
     exprs, idx = [], []
